@@ -17,6 +17,9 @@ Provides class for the analysis of dynamical systems and time series based
 on event synchronization and event coincidence analysis
 """
 
+from typing import Tuple
+from collections.abc import Hashable
+
 # array object and fast numerics
 import numpy as np
 
@@ -194,6 +197,12 @@ class EventSeriesClimateNetwork(EventSeries, ClimateNetwork):
                                 similarity_measure=measure_matrix,
                                 threshold=0, directed=self.directed,
                                 **CN_kwargs)
+
+    def __cache_state__(self) -> Tuple[Hashable, ...]:
+        # the network part only exists once Network.__init__() has run
+        net_state = (ClimateNetwork.__cache_state__(self)
+                     if hasattr(self, "_mut_A") else ())
+        return EventSeries.__cache_state__(self) + net_state
 
     def __str__(self):
         """
